@@ -87,7 +87,8 @@ def realise(inp, g):
             return np.ones((2, d), dtype=bool)
         return np.array([[1, "a"] + [2] * max(0, d - 2)][:1], dtype=object)
     if t == "notArray":
-        return {"string": "abc", "none": None, "pylist": [1.0] * d, "dict": {"a": 1}}[inp["how"]]
+        # (the Python list is RAGGED: a flat list of d numbers is perfectly good data - numpy makes one step of d features of it)
+        return {"string": "abc", "none": None, "pylist": [[1.0] * d, [1.0] * (d + 1)], "dict": {"a": 1}}[inp["how"]]
     return arr(2, 2, 2, d)
 
 
@@ -436,6 +437,33 @@ def first_use_checks(ctx, g):
             ctx.violation(f"{kind} built with input_dim={declared} rejects data of that width after two rejected attempts "
                           f"with another width ({good[1]})", c, obligation=ob)
             return
+    # (c) a model with two entry nodes of different declared widths, fed ONE array (shared by both): whichever width the
+    # array has, one of the two entries must refuse it - before anything is initialised or moved
+    d1, d2 = declared, actual
+    for kind in ("inputs", "reservoirs"):
+        for order in (0, 1):
+            if kind == "inputs":
+                e1, e2 = N.Input(input_dim=d1), N.Input(input_dim=d2)
+            else:
+                e1, e2 = N.Reservoir(4, input_dim=d1, seed=1), N.Reservoir(4, input_dim=d2, seed=2)
+            model = (e1 & e2) if order == 0 else (e2 & e1)
+            for width in (d1, d2):
+                c = {"kind": "first_use", "what": "two_entries", "entries": kind, "dims": [d1, d2], "width": width, "order": order}
+                ctx.count(c, nontrivial=True, obligation=ob)
+                ctx.stat(f"first_use two_entries {kind}")
+                for op in ("call", "run"):
+                    data = arr(1, width) if op == "call" else arr(T, width)
+                    before = (digest(e1), digest(e2))
+                    r = common.exc_class(lambda: getattr(model, op)(data))
+                    if r[0] == "ok":
+                        ctx.violation(f"a model with two entry nodes declared with {d1} and {d2} features accepted one shared array of "
+                                      f"{width} features through {op} (the entry declared with {d2 if width == d1 else d1} must refuse it)",
+                                      c, obligation=ob)
+                        return
+                    if (digest(e1), digest(e2)) != before:
+                        ctx.violation(f"a model with two entry nodes declared with {d1} and {d2} features rejected ({r[1]}) a shared array of "
+                                      f"{width} features through {op} only after initialising or moving a node", c, obligation=ob)
+                        return
 
 
 def container_state_checks(ctx, g):
